@@ -204,13 +204,18 @@ BOUNDS_TEXT = ("inductive steps from ANY state of the sending machinery satisfyi
                "peer frame (WINDOW_UPDATE stream/connection with any increment, SETTINGS_INITIAL_WINDOW_SIZE change "
                "of either sign, SETTINGS_MAX_FRAME_SIZE) or ONE application/transport operation (write, "
                "writeSequence of two chunks, requestDone, abort, registerProducer, transport pause/resume).  quick: "
-               "1 stream in full, 2 streams for the reactor turn with the second stream in a reduced state set (no "
-               "producer, not finished, <= 1 chunk); thorough: 2 streams for all steps (reduced second stream for "
-               "events / operations, full for the turn).  Histories from a fresh connection (requests through the "
-               "real _requestReceived): optional first turn, hist = 2 operations (quick: 1 stream, alphabet without "
-               "writeSequence / max-frame-size / transport pause+resume; thorough: 1-2 streams, full alphabet), any "
-               "sizes/increments <= cap, then a liveness phase (fair scheduler) and a drain phase (all windows "
-               "opened)")
+               "1 stream in full for all three steps; 2 streams for the reactor turn with the second stream in a "
+               "reduced state set (no producer, not finished, <= 1 chunk) and for the connection-level "
+               "WINDOW_UPDATE with both streams reduced.  thorough: additionally 2 streams for every peer frame / "
+               "operation (second stream reduced) and for the turn with the second stream in any state with <= 1 "
+               "chunk.  Histories from a fresh connection (requests through the real dataReceived -> "
+               "_requestReceived, push producer on stream 0): optional first turn that puts the loop to sleep, "
+               "hist = 2 operations of any size / increment <= cap, then a liveness phase (fair scheduler: no "
+               "stream may keep queued data with an open window) and a drain phase (all windows opened: complete "
+               "body, END_STREAM once, producer not left paused, loop asleep).  quick: 1 stream, alphabet write / "
+               "requestDone / WINDOW_UPDATE stream / connection / SETTINGS_INITIAL_WINDOW_SIZE / abort / turn; "
+               "thorough: also 1 stream with writeSequence / SETTINGS_MAX_FRAME_SIZE / transport pause / resume "
+               "as first operation, and 2 streams (reduced alphabet, first operation a write or a peer frame)")
 OUTSIDE = ["the real h2 frame codec / state machine and the real `priority` tree: both are replaced by contract "
            "models (see ASSUMPTIONS); weights and dependencies of the priority tree (only 'some unblocked stream' "
            "is assumed, so any weighting is covered, fairness is assumed only for the liveness phase)",
@@ -1160,38 +1165,50 @@ _R1 = "prod1 == 0 and not done1 and nq1 <= 1"      # second stream in a reduced 
 _R0 = "prod0 == 0 and not done0 and nq0 <= 1"
 
 
+_QUICK_TURN = [("ns == 1",), ("ns == 2", _R1, "not cb", "nq0 == 0"), ("ns == 2", _R1, "not cb", "nq0 == 1"),
+               ("ns == 2", _R1, "not cb", "nq0 == 2", "done0"), ("ns == 2", _R1, "not cb", "nq0 == 2", "not done0"),
+               ("ns == 2", _R1, "cb")]
+_QUICK_EVENT = [("ns == 1", "loop == 0"), ("ns == 1", "loop == 1", "ev == 0"), ("ns == 1", "loop == 1", "ev == 1"),
+                ("ns == 1", "loop == 1", "ev >= 2"), ("ns == 1", "loop == 2"),
+                # two streams, both in the reduced state set, connection-level WINDOW_UPDATE
+                ("ns == 2", _R1, _R0, "ev == 1", "loop <= 1")]
+_QUICK_APP = [("ns == 1", "loop == %d" % l, c) for l in range(3) for c in ("op <= 1", "op >= 2")]
+_QUICK_HIST = ([("ns == 1", "o0 == 0", c) for c in ("o1 <= 2", "o1 == 3 or o1 == 4", "o1 == 5 or o1 == 7",
+                                                     "o1 == 8 or o1 == 11")]
+               + [("ns == 1", "o0 == %d" % a) for a in (2, 3, 4, 5, 7, 8)])
+_EXTRA = (1, 6, 9, 10)      # operations only in the full history alphabet
+
+
 def _turn_shards(tier):
     if tier == "quick":
-        return [("ns == 1",), ("ns == 2", _R1, "not cb", "nq0 == 0"), ("ns == 2", _R1, "not cb", "nq0 == 1"),
-                ("ns == 2", _R1, "not cb", "nq0 == 2", "done0"), ("ns == 2", _R1, "not cb", "nq0 == 2", "not done0"),
-                ("ns == 2", _R1, "cb")]
-    return [("ns == 1",)] + [("ns == 2", "nq0 == %d" % a, "nq1 == %d" % b2) for a in range(3) for b2 in range(3)]
+        return _QUICK_TURN
+    # second stream in every state (except two queued chunks)
+    return _QUICK_TURN + [("ns == 2", "not cb", "nq0 == %d" % a, "nq1 == %d" % b2, "prod1 == %d" % pp)
+                          for a in range(3) for b2 in range(2) for pp in range(3)]
 
 
 def _event_shards(tier):
     if tier == "quick":
-        return [("ns == 1", "loop == 0"), ("ns == 1", "loop == 1", "ev == 0"), ("ns == 1", "loop == 1", "ev == 1"),
-                ("ns == 1", "loop == 1", "ev >= 2"), ("ns == 1", "loop == 2"),
-                # two streams, both in the reduced state set, connection-level WINDOW_UPDATE
-                ("ns == 2", _R1, _R0, "ev == 1", "loop <= 1")]
-    return ([("ns == 1", "loop == %d" % l) for l in range(3)]
-            + [("ns == 2", _R1, "loop == %d" % l, "ev == %d" % e) for l in range(3) for e in range(4)])
+        return _QUICK_EVENT
+    return _QUICK_EVENT + [("ns == 2", _R1, "loop == %d" % l, "ev == %d" % e, "nq0 == %d" % a)
+                           for l in range(3) for e in range(4) for a in range(3)]
 
 
 def _app_shards(tier):
     if tier == "quick":
-        return [("ns == 1", "loop == %d" % l, c) for l in range(3) for c in ("op <= 1", "op >= 2")]
-    return ([("ns == 1", "loop == %d" % l) for l in range(3)]
-            + [("ns == 2", _R1, "op == %d" % o) for o in range(7)])
+        return _QUICK_APP
+    return _QUICK_APP + [("ns == 2", _R1, "op == %d" % o, "loop == %d" % l, "nq0 == %d" % a)
+                         for o in range(7) for l in range(3) for a in range(3) if not (o == 5 and l == 2)]
 
 
 def _hist_shards(tier):
     if tier == "quick":
-        return ([("o0 == 0", c) for c in ("o1 <= 2", "o1 == 3 or o1 == 4", "o1 == 5 or o1 == 7", "o1 == 8 or o1 == 11")]
-                + [("o0 == %d" % a,) for a in (2, 3, 4, 5, 7, 8)])
-    return ([("ns == 1", "o0 == %d" % a, c) for a in range(11) for c in ("o1 <= 5", "o1 >= 6")]
-            + [("ns == 2", "o0 == 0", "o1 == %d" % b2) for b2 in (0, 2, 3, 4, 5, 7, 8, 11)]
-            + [("ns == 2", "o0 == %d" % a) for a in (2, 3, 4, 5, 7, 8)])
+        return _QUICK_HIST
+    # one stream: the pairs that start with an operation of the full alphabet; two streams: reduced alphabet,
+    # first operation a write or a peer frame
+    return (_QUICK_HIST
+            + [("ns == 1", "o0 == %d" % a, "o1 == %d" % b2) for a in _EXTRA for b2 in range(12)]
+            + [("ns == 2", "o0 == %d" % a, "o1 == %d" % b2) for a in (0, 3, 4, 5) for b2 in (0, 2, 3, 4, 5, 7, 8, 11)])
 
 
 HARNESSES = [
